@@ -19,7 +19,7 @@ from pathlib import Path
 
 ROOT = Path(__file__).resolve().parent.parent
 REPLAYS = ROOT / "replays"
-EVIDENCE = ROOT / "evidence"
+EVIDENCE = Path(os.environ.get("VERIF_EVIDENCE_DIR") or (ROOT / "evidence"))
 KNOWN_FILE = ROOT / "known_findings.json"
 NPROC = int(os.environ.get("VERIF_NPROC", "16"))
 
